@@ -18,6 +18,7 @@ import (
 	"os"
 	"path/filepath"
 	"regexp"
+	"sort"
 	"strings"
 
 	"github.com/DavidGamba/go-getoptions/internal/help"
@@ -368,11 +369,9 @@ func (gopt *GetOpt) Parse(args []string) ([]string, error) {
 		// If the help is called, don't check for required options since the program wont run.
 		if gopt.finalNode.HelpCommandName == "" || !gopt.Called(gopt.finalNode.HelpCommandName) {
 			// Validate required options
-			for _, option := range node.ChildOptions {
-				err := option.CheckRequired()
-				if err != nil {
-					return nil, fmt.Errorf("%w%s", ErrorParsing, err.Error())
-				}
+			err := checkRequired(node.ChildOptions)
+			if err != nil {
+				return nil, err
 			}
 		}
 	}
@@ -390,6 +389,23 @@ func (gopt *GetOpt) Parse(args []string) ([]string, error) {
 	return node.ChildText, nil
 }
 
+// checkRequired - Returns an error for the first required option that wasn't called.
+// Options are checked in sorted order so that the reported option doesn't depend on map iteration order.
+func checkRequired(options map[string]*option.Option) error {
+	names := make([]string, 0, len(options))
+	for name := range options {
+		names = append(names, name)
+	}
+	sort.Strings(names)
+	for _, name := range names {
+		err := options[name].CheckRequired()
+		if err != nil {
+			return fmt.Errorf("%w%s", ErrorParsing, err.Error())
+		}
+	}
+	return nil
+}
+
 // Dispatch - Handles calling commands and subcommands after the call to Parse.
 func (gopt *GetOpt) Dispatch(ctx context.Context, remaining []string) error {
 	if gopt.finalNode.HelpCommandName != "" && gopt.Called(gopt.finalNode.HelpCommandName) {
@@ -397,11 +413,9 @@ func (gopt *GetOpt) Dispatch(ctx context.Context, remaining []string) error {
 		return ErrorHelpCalled
 	}
 	// Validate required options
-	for _, option := range gopt.finalNode.ChildOptions {
-		err := option.CheckRequired()
-		if err != nil {
-			return fmt.Errorf("%w%s", ErrorParsing, err.Error())
-		}
+	err := checkRequired(gopt.finalNode.ChildOptions)
+	if err != nil {
+		return err
 	}
 	if gopt.finalNode.CommandFn != nil {
 		return gopt.finalNode.CommandFn(ctx, &GetOpt{gopt.finalNode, gopt.finalNode}, remaining)
